@@ -318,6 +318,13 @@ def _func(seq, arity, what):
     return v
 
 
+def _arr(seq):
+    v = _one(seq, 'array')
+    if not isinstance(v, Arr):
+        raise ModelError('array required')
+    return v
+
+
 def _substring(s, start, length=None):
     # integer arguments only: positions p with start <= p (< start + length)
     out = []
@@ -449,6 +456,7 @@ BUILTINS = {
     'fold-right': ((3,), b_fold_right, '3.0'),
     'for-each-pair': ((3,), b_for_each_pair, '3.0'),
     'apply': ((2,), b_apply, '3.1'),
+    'array:get': ((2,), lambda ip, a: ip.apply(_arr(a[0]), [a[1]]), '3.1'),
     'sort': ((1, 2, 3), b_sort, '3.1'),
 }
 
@@ -625,6 +633,8 @@ class Interp:
 
     def e_for(self, e, env):
         out = []
+        if e[1] in env:
+            self.features.add('rebind')
         for item in self.ev(e[2], env):
             env2 = dict(env)
             env2[e[1]] = [item]
@@ -634,6 +644,8 @@ class Interp:
     e_forc = e_for
 
     def e_let(self, e, env):
+        if e[1] in env:
+            self.features.add('rebind')
         env2 = dict(env)
         env2[e[1]] = self.ev(e[2], env)
         return self.ev(e[3], env2)
@@ -660,6 +672,8 @@ class Interp:
                     self.features.add('typed-param')
                     if ty not in PARAM_TYPES or not PARAM_TYPES[ty](a):
                         raise ModelError('argument does not match declared type')
+                if name in captured:
+                    self.features.add('rebind')
                 env2[name] = a
             self.active[nid] = self.active.get(nid, 0) + 1
             if self.active[nid] > 1:
